@@ -181,6 +181,9 @@ def _large_case(args):
     rng = np.random.default_rng(seed)
     nr, nc = int(rng.integers(15, 40)), int(rng.integers(8, 20))
     dens = float(rng.choice([0.3, 0.6, 0.9]))
+    if seed % 4 == 1:
+        # few, long rows: a single row holds more stored values than the smallest budget (100 elements) allows per block
+        nr, nc, dens = int(rng.integers(5, 10)), int(rng.integers(150, 260)), 0.9
     M = (rng.random((nr, nc)) < dens) * rng.integers(1, 50, size=(nr, nc))
     if seed % 5 == 0:
         M[int(rng.integers(0, nr))] = 0
